@@ -32,9 +32,10 @@ def new_view(init):
     from dissect.cobaltstrike.xordecode import XorEncodedFile
 
     plain, nonce, stub = init["plain"], init["nonce"], init["stub"]
-    raw = xorenc.build_stage(plain, nonce, stub, marker=False)
+    # the size dword may be garbage (stages located through the end-of-stub marker only): the view must not depend on it
+    raw = xorenc.build_stage(plain, nonce, stub, marker=False, size_ok=init.get("size_ok", True), bad_size=init.get("bad_size", 0))
     real = lib(XorEncodedFile, io.BytesIO(raw), nonce_offset=len(stub), what="XorEncodedFile()")
-    return {"real": real, "model": io.BytesIO(plain), "plain": plain, "unaligned_then_read": False, "pending": False, "ops": 0}
+    return {"real": real, "model": io.BytesIO(plain), "plain": plain, "size_ok": init.get("size_ok", True), "unaligned_then_read": False, "pending": False, "ops": 0}
 
 
 def apply_op(st_, op):
@@ -80,7 +81,7 @@ def finish(st_, case, stats):
     stats.note(
         case,
         st_["unaligned_then_read"],
-        classes=["unaligned_then_read" if st_["unaligned_then_read"] else "aligned_only", "len_mod4_%d" % (len(st_["plain"]) % 4)],
+        classes=["unaligned_then_read" if st_["unaligned_then_read"] else "aligned_only", "size_dword_valid" if st_.get("size_ok", True) else "size_dword_garbage", "len_mod4_%d" % (len(st_["plain"]) % 4)],
     )
 
 
@@ -89,6 +90,8 @@ init_strategy = st.fixed_dictionaries(
         "plain": st.one_of(st.binary(max_size=40), st.binary(max_size=300)),
         "nonce": st.one_of(st.binary(min_size=4, max_size=4), st.sampled_from([b"\x00" * 4, b"\xff" * 4])),
         "stub": st.binary(max_size=64),
+        "size_ok": st.booleans(),
+        "bad_size": st.one_of(st.integers(0, 400), st.integers(0, 2**32 - 1)),
     }
 )
 read_sizes = st.one_of(st.sampled_from([-1, 0, 1, 2, 3, 4, 5, 7, 8, 12, 13, 16, 17]), st.integers(1, 17), st.integers(18, 400))
